@@ -19,7 +19,7 @@ ASSUMPTIONS = ["IEEE rounding of the implementation versus exact rationals is no
                "constructor arguments are numbers (None temperatures leave a stream uninitialised and are outside the statement)"]
 HDR = "From OP Require Import gen.Consts model.Base model.Stream model.Collection.\nRequire Import Coq.QArith.QArith Coq.Strings.String.\nLocal Open Scope Q_scope."
 
-TEMPS = [20.0, 50.0, 50.0, 80.0, 120.0, 50.5, 35.25]
+TEMPS = [20.0, 50.0, 50.0, 80.0, 120.0, 50.5, 35.25, 50.000375, 49.999875, 80.0005]
 SETTERS = ["t_supply", "t_target", "dt_cont", "heat_flow", "htc", "set_heat_flow"]
 SOP = {"t_supply": "SetTs", "t_target": "SetTt", "dt_cont": "SetDt", "heat_flow": "SetQ", "htc": "SetHtc", "set_heat_flow": "SetHeatFlow"}
 
